@@ -12,7 +12,7 @@ from ..flow import ERROR
 from ..model import UNKNOWN, AnchorError, Func, UnknownIdiom, short, walk_no_nested
 from .c09_helpers import (ASGI_REQ, C09_ACCESSORS, WSGI_REQ, SiteEscape, assignments, effective_members, is_4xx,
                           split_key, table_of)
-from .common import is_self_attr, walk_self
+from .common import enclosing_map, is_self_attr, walk_self
 
 MUTATORS = ('append', 'extend', 'insert', 'clear', 'update', 'pop', 'remove', 'setdefault', 'popitem', 'sort', 'reverse')
 
@@ -880,6 +880,56 @@ def x_exc_class(p, f, n: ast.Raise) -> Optional[str]:
     return p.resolve_expr(f.module, e, f)
 
 
+# ---------------------------------------------------------------------------
+# R7 Forwarded: node identifiers and host are passed on verbatim
+# ---------------------------------------------------------------------------
+
+_CASE_CHANGERS = ('lower', 'upper', 'casefold', 'title', 'capitalize', 'swapcase')
+
+
+def r7_forwarded_case(run):
+    """RFC 7239: parameter NAMES are case-insensitive and `proto` is a scheme
+    (case-insensitive); `for`/`by` may carry obfuscated identifiers (`_SEVKISEK`)
+    and `host` a host name, which the accessor must hand on as received.
+    Decided: in the Forwarded parser a case-changing string method is applied
+    only to the parameter name of a pair or to the value stored as the scheme.
+    W: `Forwarded: for=_SEVKISEK` -> req.forwarded[0].src == '_sevkisek'."""
+    p = run.project
+    f = p.func('falcon.forwarded._parse_forwarded_header')
+    run.use(f)
+    parent = enclosing_map(f.node)
+    # name variable(s): first element of a tuple unpacked from <match>.groups()
+    name_vars = set()
+    for a in walk_self(f.node):
+        if isinstance(a, ast.Assign) and len(a.targets) == 1 and isinstance(a.targets[0], ast.Tuple) and a.targets[0].elts \
+                and isinstance(a.value, ast.Call) and isinstance(a.value.func, ast.Attribute) and a.value.func.attr in ('groups', 'group'):
+            if isinstance(a.targets[0].elts[0], ast.Name):
+                name_vars.add(a.targets[0].elts[0].id)
+    if not name_vars:
+        raise AnchorError('_parse_forwarded_header: no `name, value = <match>.groups()` unpacking')
+    calls = [c for c in walk_self(f.node) if isinstance(c, ast.Call) and isinstance(c.func, ast.Attribute) and c.func.attr in _CASE_CHANGERS]
+    stores = [a for a in walk_self(f.node) if isinstance(a, ast.Assign) and any(isinstance(t, ast.Attribute) and t.attr in ('src', 'dest', 'host', 'scheme') for t in a.targets)]
+    if len(stores) < 4:
+        raise AnchorError('_parse_forwarded_header: stores of src/dest/host/scheme not found (%d)' % len(stores))
+    n_ok = 0
+    for c in calls:
+        recv = c.func.value
+        st = c
+        while not isinstance(st, ast.stmt):
+            st = parent[id(st)]
+        ok = False
+        if isinstance(recv, ast.Name) and recv.id in name_vars:
+            ok = True
+        elif isinstance(st, ast.Assign) and all(isinstance(t, ast.Attribute) and t.attr == 'scheme' for t in st.targets):
+            ok = True
+        n_ok += ok
+        run.check(ok, 'a case-changing method in the Forwarded parser applies to a parameter name or to the scheme only '
+                      '(for=/by=/host= values are handed on verbatim)', f, st,
+                  runtime_witness="Forwarded: for=_SEVKISEK;by=_BT -> req.forwarded[0].src == '_sevkisek', req.access_route == ['_sevkisek', ...]")
+    if not calls:
+        raise AnchorError('_parse_forwarded_header: parameter names are not case-folded at all')
+
+
 def check(run):
     run.assume('E5 assumptions: str/bytes/re/dict.get methods and in-range sequence subscripts are total; unresolved '
                'external callees do not raise unless tabled; UTF-8 encoding of request-derived text is total')
@@ -892,3 +942,4 @@ def check(run):
     run.rule('R3', r3_case_insensitive, 'get_header folds the case of the requested name before the table lookup', floor=4)
     run.rule('R4', r4_writer_reader, 'date / entity-tag writers agree with their readers', floor=6)
     run.rule('R6', r6_range, 'Range decision table (RFC 9110 14.1.2)', floor=10)
+    run.rule('R7', r7_forwarded_case, 'Forwarded: only parameter names and the scheme are case-folded', floor=2)
